@@ -87,11 +87,11 @@ type h2conn struct {
 	id       int
 	open     bool // open at the upstream
 	goaway   bool // GOAWAY sent and acknowledged (PING behind it)
-	goaway0  bool // ... announced last-stream-id 0 (no stream had been seen on it)
+	ga0      bool // received GOAWAY(last-stream-id 0) (no stream had been seen on it): the pool may have ignored it (sigH2GoAway0)
 	replaced bool // the pool moved on (GOAWAY + later NewStream)
 	refused  bool
 	byPool   bool
-	ga0Known bool // absorbed sigH2GoAway0: the pool ignored the GOAWAY, the connection stays in use
+	ga0Known bool // absorbed sigH2GoAway0: the pool did ignore that GOAWAY, the connection stays in use
 }
 
 const (
@@ -277,7 +277,7 @@ func (r *h2run) check(hardConn bool, ctx string) *h2fail {
 		r.pendingConn = ""
 		return nil
 	}
-	if r.cur != nil && r.cur.goaway && !r.cur.open && r.stale == 0 && g.HostConnActive == want+1 && g.ClusterConnActive == want+1 {
+	if r.cur != nil && (r.cur.goaway || r.cur.ga0 && !r.cur.ga0Known) && !r.cur.open && r.stale == 0 && g.HostConnActive == want+1 && g.ClusterConnActive == want+1 {
 		if r.known(sigH2Stale) {
 			r.stale = 1
 			r.class("absorbed-stale-gauge")
@@ -408,7 +408,7 @@ func (r *h2run) connDied(c *h2conn) (bool, *h2fail) {
 		s.state = h2Failed
 		saw = true
 	}
-	if c == r.cur && !c.goaway {
+	if c == r.cur && !c.goaway && !(c.ga0 && !c.ga0Known) {
 		r.cur = nil
 	}
 	return saw, nil
@@ -420,7 +420,9 @@ func (r *h2run) lease() *h2fail {
 	nAct := len(r.active())
 	wantOverflow := r.h.MaxReq != 0 && nAct >= int(r.h.MaxReq)
 	prev := r.cur
-	needNew := prev == nil || prev.goaway
+	needNew := prev == nil || prev.goaway || !prev.open
+	// a GOAWAY(last-stream-id 0) the pool may or may not have registered: both continuations are followed
+	maybeNew := !needNew && prev.ga0 && !prev.ga0Known
 	g0 := r.rig.Gauges()
 	n0 := r.rig.Up.NumConns()
 	tok := fmt.Sprintf("t%d", r.tok)
@@ -430,8 +432,8 @@ func (r *h2run) lease() *h2fail {
 		return r.hang(res.Hang)
 	}
 	// any NewStream releases a go-away connection from the slot
-	if prev != nil && prev.goaway {
-		prev.replaced = true
+	if prev != nil && (prev.goaway || !prev.open) {
+		prev.replaced = prev.goaway || prev.ga0
 		r.cur = nil
 		r.stale = 0
 	}
@@ -475,10 +477,15 @@ func (r *h2run) lease() *h2fail {
 		}
 		return r.afterLease(false)
 	case res.Reason == types.ConnectionFailure:
-		if r.mode == pool.ModeAccept || !needNew {
+		if r.mode == pool.ModeAccept || !(needNew || maybeNew) {
 			return &h2fail{sig: sigH2ConnFail, step: r.step, again: true, msg: fmt.Sprintf("lease %s answered ConnectionFailure; upstream mode %d, pool connection %s", tok, r.mode, r.connsString())}
 		}
 		r.class("refused")
+		if maybeNew { // a connect was attempted: the pool had registered the GOAWAY(last-stream-id 0)
+			prev.goaway, prev.replaced, prev.ga0 = true, true, false
+			r.cur = nil
+			r.class("goaway0-honoured")
+		}
 		r.logf("lease %s -> ConnectionFailure (connect refused, upstream mode %d)", tok, r.mode)
 		if r.mode == pool.ModeRST {
 			// connect() can report the reset of a connection the upstream accepted and reset at once: the
@@ -552,10 +559,16 @@ func (r *h2run) lease() *h2fail {
 		r.newConnStep = r.step
 	} else {
 		if q.AfterGoAway && !mc.ga0Known {
-			if mc.goaway0 {
+			if !mc.ga0 {
+				return r.hard(sigH2OnGoAway, "request %s (stream %d) was sent on c%d after that connection received GOAWAY(last-stream-id %d) and acknowledged a PING behind it", tok, q.StreamID, mc.id, r.rig.Up.Conn(mc.id).GoAwayLast)
+			}
+			if !r.known(sigH2GoAway0) {
 				return r.hard(sigH2GoAway0, "request %s (stream %d) was sent on c%d after that connection received GOAWAY(NO_ERROR, last-stream-id 0) and acknowledged a PING behind it: a GOAWAY that announces no processed stream is ignored", tok, q.StreamID, mc.id)
 			}
-			return r.hard(sigH2OnGoAway, "request %s (stream %d) was sent on c%d after that connection received GOAWAY(last-stream-id %d) and acknowledged a PING behind it", tok, q.StreamID, mc.id, r.rig.Up.Conn(mc.id).GoAwayLast)
+			// listed finding, carried in the model: the connection stays the pool's connection
+			mc.ga0Known = true
+			r.class("absorbed-goaway0")
+			r.logf("   (listed finding: c%d is used although it received GOAWAY(last-stream-id 0))", mc.id)
 		}
 		if mc != r.cur {
 			return r.hard(sigH2WrongConn, "request %s arrived on c%d, the pool's connection is %s", tok, mc.id, r.connsString())
@@ -590,11 +603,15 @@ func (r *h2run) afterLease(hardConn bool) *h2fail {
 // abandoned: a lease opened connection fresh although prev was the pool's live connection. Accepted
 // only if the pool closed prev itself.
 func (r *h2run) abandoned(prev, fresh *h2conn, tok string) *h2fail {
-	if prev.ga0Known {
-		// the GOAWAY(last-stream-id 0) was honoured after all (the listed finding does not apply to this tree)
-		prev.goaway, prev.replaced = true, true
+	if prev.ga0 && !prev.ga0Known {
+		// the pool had registered the GOAWAY(last-stream-id 0)
+		prev.goaway, prev.replaced, prev.ga0 = true, true, false
 		r.class("goaway0-honoured")
 		return nil
+	}
+	// the pool answers a PING on prev after NewStream returned: it did not close prev, it forgot it
+	if ok, _ := r.rig.Up.Sync(prev.id, r.d/2); ok {
+		return r.hard(sigH2Abandoned, "lease %s opened c%d although the pool's connection c%d is open and never received GOAWAY; c%d still acknowledges a PING after NewStream returned: the pool forgot it without closing it (%s)", tok, fresh.id, prev.id, prev.id, r.connsString())
 	}
 	closedByPool := r.rig.Up.Wait(r.d/2, func() bool {
 		uc := r.rig.Up.ConnLocked(prev.id)
@@ -692,17 +709,12 @@ func (r *h2run) goAway(c *h2conn) *h2fail {
 		return r.soft("goaway-ping-not-acknowledged", "PING behind GOAWAY on c%d not acknowledged (%v)", c.id, err)
 	}
 	if uc.MaxStream == 0 {
+		c.ga0 = true
 		r.class("goaway-last-stream-0")
-		if r.known(sigH2GoAway0) {
-			// listed finding: the pool ignores this GOAWAY and keeps using the connection; carried in the model
-			c.ga0Known = true
-			r.class("absorbed-goaway0")
-			r.logf("GOAWAY(last-stream-id 0) on c%d (listed finding: ignored by the pool)", c.id)
-			return r.check(false, "goaway")
-		}
-		c.goaway0 = true
+		r.logf("GOAWAY(last-stream-id 0) on c%d, connection stays open", c.id)
+		return r.check(false, "goaway")
 	}
-	c.goaway, c.ga0Known = true, false
+	c.goaway, c.ga0, c.ga0Known = true, false, false
 	r.sawGoAway = true
 	r.class("goaway")
 	r.logf("GOAWAY(last-stream-id %d) on c%d, %d in flight, connection stays open", uc.MaxStream, c.id, len(r.on(c)))
@@ -750,6 +762,10 @@ func (r *h2run) poolClose(ctx string) *h2fail {
 	if wasOpen {
 		// Close() closes the socket before it returns; a connection that is still open at the upstream
 		// afterwards is one the pool let go of without closing it
+		if ok, _ := r.rig.Up.Sync(c.id, r.d); ok {
+			g := r.rig.Gauges()
+			return r.hard(sigH2Orphan, "pool.Close() returned, c%d (the pool's connection, %d request(s) in flight) still acknowledges a PING: it was not closed; upstream_connection_active host=%d cluster=%d (%s)", c.id, len(r.on(c)), g.HostConnActive, g.ClusterConnActive, r.connsString())
+		}
 		if !r.rig.Up.Wait(r.d, func() bool { uc := r.rig.Up.ConnLocked(c.id); return uc != nil && !uc.Open() }) {
 			g := r.rig.Gauges()
 			return &h2fail{sig: sigH2Orphan, step: r.step, timing: true, msg: fmt.Sprintf("pool.Close() returned, c%d (the pool's connection, %d request(s) in flight) is still open at the upstream; upstream_connection_active host=%d cluster=%d (%s)", c.id, len(r.on(c)), g.HostConnActive, g.ClusterConnActive, r.connsString())}
@@ -919,6 +935,13 @@ func (r *h2run) finish() *h2fail {
 		return len(open) == 0
 	})
 	if !ok {
+		for _, uc := range r.rig.Up.Conns() {
+			if uc.Open() {
+				if acked, _ := r.rig.Up.Sync(uc.ID, r.d/2); acked {
+					return r.hard(sigH2Orphan, "all leases ended, go-away connections were closed by the peer and pool.Close() returned; c%d is open and still acknowledges a PING: no slot of the pool holds it (%s)", uc.ID, r.connsString())
+				}
+			}
+		}
 		return &h2fail{sig: sigH2Orphan, step: r.step, timing: true, msg: fmt.Sprintf("all leases ended, go-away connections were closed by the peer and pool.Close() returned; still open at the upstream: %v (%s)", open, r.connsString())}
 	}
 	if _, f := r.reconcile(false); f != nil {
